@@ -138,11 +138,11 @@ def check_rules(ctx, prefix, nprog_q, nprog_t, thin=1):
 
 
 def run_C01(ctx):
-    return check_rules(ctx, "C01", 50, 2500)
+    return check_rules(ctx, "C01", 50, 1000, thin=2)
 
 
 def run_C08(ctx):
-    return check_rules(ctx, "C08", 50, 900, thin=3)
+    return check_rules(ctx, "C08", 50, 500, thin=5)
 
 
 # =================================================================================== formulas
@@ -388,7 +388,7 @@ def simp_cases(ctx, nq, nt):
 
 def run_C07(ctx):
     V.build()
-    cases = simp_cases(ctx, 500, 6000)
+    cases = simp_cases(ctx, 500, 4000)
     recs = V.run_harness(ctx, "simplify", cases)
     # every rewrite rule on its own (a wrong rule can be masked by a later rule of the portfolio)
     for r in V.run_harness(ctx, "rewrites", cases, tag="-single"):
